@@ -1054,54 +1054,7 @@ Proof.
   - apply nondecr_accumulate. exact Hw.
 Qed.
 
-(** ** uniformity by counting, bounded (n <= 64): among the tapes holding exactly one pass of k bits, _randbelow
-    accepts precisely those encoding a value v < n, returns that v and consumes the k bits; all other k-bit tapes
-    are rejected (the restart then finds no bits).  So conditional on acceptance in the first pass the output is
-    uniform on range(n): one accepting tape per value. *)
-Definition all_tapes (k : nat) : list tape := map (fun z => tape_of k (Z.of_nat z)) (seq 0 (2 ^ k)).
-
-Definition res_dec : forall a b : option (Z * tape), {a = b} + {a <> b}.
-Proof. repeat decide equality. Defined.
-
-Definition one_pass_expected (n : Z) (tp : tape) : option (Z * tape) :=
-  if from_bits tp <? n then Some (from_bits tp, []) else None.
-
-Definition one_pass_ok (n : Z) : bool :=
-  forallb (fun tp => if res_dec (randbelow 100 n tp) (one_pass_expected n tp) then true else false)
-          (all_tapes (bit_length (n - 1))).
-
-Lemma one_pass_all : forallb one_pass_ok (map Z.of_nat (seq 1 64)) = true.
-Proof. vm_compute. reflexivity. Qed.
-
-Theorem randbelow_one_pass_bounded : forall n, 1 <= n <= 64 ->
-  forall tp, In tp (all_tapes (bit_length (n - 1))) ->
-    randbelow 100 n tp = if from_bits tp <? n then Some (from_bits tp, []) else None.
-Proof.
-  intros n Hn tp Hin. pose proof one_pass_all as A. rewrite forallb_forall in A.
-  assert (I : In n (map Z.of_nat (seq 1 64))).
-  { apply in_map_iff. exists (Z.to_nat n). split; [lia|]. apply in_seq. lia. }
-  specialize (A n I). unfold one_pass_ok in A. rewrite forallb_forall in A. specialize (A tp Hin).
-  destruct (res_dec (randbelow 100 n tp) (one_pass_expected n tp)) as [E|]; [exact E | discriminate].
-Qed.
-
-(** every value v < n has an accepting one-pass tape (its k-bit encoding), n <= 64 *)
-Theorem randbelow_one_pass_onto_bounded : forall n, 1 <= n <= 64 -> forall v, 0 <= v < n ->
-  exists tp, In tp (all_tapes (bit_length (n - 1))) /\ randbelow 100 n tp = Some (v, []).
-Proof.
-  assert (A : forallb (fun n => forallb (fun v =>
-             existsb (fun tp => if res_dec (randbelow 100 n tp) (Some (Z.of_nat v, [])) then true else false)
-                     (all_tapes (bit_length (n - 1)))) (seq 0 (Z.to_nat n))) (map Z.of_nat (seq 1 64)) = true)
-    by (vm_compute; reflexivity).
-  intros n Hn v Hv. rewrite forallb_forall in A.
-  assert (I : In n (map Z.of_nat (seq 1 64))).
-  { apply in_map_iff. exists (Z.to_nat n). split; [lia|]. apply in_seq. lia. }
-  specialize (A n I). rewrite forallb_forall in A.
-  assert (Iv : In (Z.to_nat v) (seq 0 (Z.to_nat n))) by (apply in_seq; lia).
-  specialize (A _ Iv). apply existsb_exists in A. destruct A as (tp & Hin & E).
-  exists tp. split; [exact Hin|]. rewrite Z2Nat.id in E by lia.
-  destruct (res_dec (randbelow 100 n tp) (Some (v, []))) as [E'|]; [exact E' | discriminate].
-Qed.
-
+(** ** the rejecting pass does not look at the bits it retains *)
 (** a rejection is decided by the bits at and above the rejection position only: the retained low bits x[:j]
     are not inspected by the pass (any x' agreeing with x from position j upwards is rejected at the same j),
     so the bits kept by the restart are unconstrained by the decision. *)
@@ -1131,4 +1084,393 @@ Proof.
   - destruct (h * nth (i - 1) x 0 =? 0).
     + apply (IH x); assumption.
     + exact H.
+Qed.
+
+(** * General one-pass kernel and uniformity by counting (all n >= 1) *)
+
+(** ** bits <-> numbers: [tape_of k] and [from_bits] are inverse bijections between k-bit lists and [0, 2^k) *)
+Lemma tape_of_length : forall k v, length (tape_of k v) = k.
+Proof. induction k as [|k IH]; intros v; cbn [tape_of length]; [reflexivity | rewrite IH; reflexivity]. Qed.
+
+Lemma tape_of_bits : forall k v, bits (tape_of k v).
+Proof.
+  induction k as [|k IH]; intros v; cbn [tape_of]; constructor; [|apply IH].
+  pose proof (Z.mod_pos_bound v 2 ltac:(lia)) as B. unfold is01. lia.
+Qed.
+
+Lemma from_tape_of : forall k v, 0 <= v < 2 ^ Z.of_nat k -> from_bits (tape_of k v) = v.
+Proof.
+  induction k as [|k IH]; intros v Hv.
+  - cbn in *. lia.
+  - rewrite Nat2Z.inj_succ, Z.pow_succ_r in Hv by lia. cbn [tape_of from_bits].
+    rewrite IH by lia. lia.
+Qed.
+
+Lemma tape_of_from : forall x, bits x -> tape_of (length x) (from_bits x) = x.
+Proof.
+  induction x as [|a x IH]; intros H; [reflexivity|].
+  inversion H as [|? ? Ha Hx]; subst. cbn [length tape_of from_bits].
+  assert (E1 : (a + 2 * from_bits x) mod 2 = a) by (destruct Ha as [-> | ->]; lia).
+  assert (E2 : (a + 2 * from_bits x) / 2 = from_bits x) by (destruct Ha as [-> | ->]; lia).
+  rewrite E1, E2, IH by exact Hx. reflexivity.
+Qed.
+
+Theorem bits_value_bijection : forall k : nat,
+  (forall x, bits x -> length x = k -> 0 <= from_bits x < 2 ^ Z.of_nat k /\ tape_of k (from_bits x) = x) /\
+  (forall v, 0 <= v < 2 ^ Z.of_nat k ->
+     bits (tape_of k v) /\ length (tape_of k v) = k /\ from_bits (tape_of k v) = v).
+Proof.
+  intros k. split.
+  - intros x Hx L. split; [rewrite <- L; apply from_bits_bound; exact Hx | rewrite <- L; apply tape_of_from; exact Hx].
+  - intros v Hv. split; [apply tape_of_bits | split; [apply tape_of_length | apply from_tape_of; exact Hv]].
+Qed.
+
+Lemma from_bits_inj : forall x y, bits x -> bits y -> length x = length y -> from_bits x = from_bits y -> x = y.
+Proof.
+  intros x y Hx Hy L E. rewrite <- (tape_of_from x Hx), <- (tape_of_from y Hy), L, E. reflexivity.
+Qed.
+
+(** ** the loop is: run one pass ([rb_pass]); on rejection at j keep x[:j], draw k-j bits, start again *)
+Lemma is01_mul : forall a b, is01 a -> is01 b -> is01 (a * b).
+Proof. intros a b [-> | ->] [-> | ->]; cbv; auto. Qed.
+
+Lemma rb_loop_unfold : forall (b : Z) (k t : nat), (1 <= t)%nat ->
+  forall fuel x h i tp, bits x -> is01 h -> (i < fuel)%nat ->
+    rb_loop fuel b k t x h i tp =
+    match rb_pass b t x h (S i) i with
+    | None => Some (x, tp)
+    | Some j => match draw (k - j) tp with
+                | None => None
+                | Some (nb, tp') => rb_loop (fuel - (i - j)) b k t (firstn j x ++ nb) 1 k tp'
+                end
+    end.
+Proof.
+  intros b k t Ht. induction fuel as [|f IH]; intros x h i tp Hx Hh Hi; [lia|].
+  cbn [rb_loop rb_pass]. destruct (i <? t)%nat eqn:Eit; [reflexivity|].
+  apply Nat.ltb_ge in Eit. destruct i as [|i']; [lia|].
+  replace (S i' - 1)%nat with i' by lia.
+  pose proof (bits_nth x i' Hx) as Hc.
+  destruct (Z.testbit b (Z.of_nat i')) eqn:Eb.
+  - rewrite (IH x (h * nth i' x 0) i' tp Hx (is01_mul _ _ Hh Hc) ltac:(lia)).
+    destruct (rb_pass b t x (h * nth i' x 0) (S i') i') as [j|] eqn:Ep; [|reflexivity].
+    pose proof (rb_pass_pos b t Ht _ _ _ _ _ Ep) as Lj.
+    replace (S f - (S i' - j))%nat with (f - (i' - j))%nat by lia. reflexivity.
+  - destruct (h * nth i' x 0 =? 0) eqn:Ez.
+    + rewrite (IH x h i' tp Hx Hh ltac:(lia)).
+      destruct (rb_pass b t x h (S i') i') as [j|] eqn:Ep; [|reflexivity].
+      pose proof (rb_pass_pos b t Ht _ _ _ _ _ Ep) as Lj.
+      replace (S f - (S i' - j))%nat with (f - (i' - j))%nat by lia. reflexivity.
+    + apply Z.eqb_neq in Ez.
+      assert (H1 : h = 1) by (destruct Hh as [-> | ->]; [lia | reflexivity]).
+      replace (S f - (S i' - i'))%nat with f by lia. rewrite H1. reflexivity.
+Qed.
+
+(** ** a pass accepts iff the register value is <= b *)
+Lemma reject_gt : forall b i x, 0 <= b -> bits x -> (i <= length x)%nat ->
+  b / 2 ^ Z.of_nat i < from_bits (skipn i x) -> b < from_bits x.
+Proof.
+  intros b i x Hb Hx Li H.
+  rewrite <- (firstn_skipn i x), from_bits_app, firstn_length_le by exact Li.
+  pose proof (from_bits_bound (firstn i x) (bits_firstn i x Hx)) as Hlo.
+  assert (P : 0 < 2 ^ Z.of_nat i) by (apply Z.pow_pos_nonneg; lia).
+  set (W := 2 ^ Z.of_nat i) in *. set (hi := from_bits (skipn i x)) in *. set (lo := from_bits (firstn i x)) in *.
+  pose proof (Z.div_mod b W ltac:(lia)) as D. pose proof (Z.mod_pos_bound b W P) as M.
+  set (q := b / W) in *. set (m := b mod W) in *. clearbody W hi lo q m. nia.
+Qed.
+
+Lemma rb_pass_S : forall b t x h s i,
+  rb_pass b t x h (S s) i =
+  if (i <? t)%nat then None
+  else if Z.testbit b (Z.of_nat (i - 1)) then rb_pass b t x (h * nth (i - 1) x 0) s (i - 1)
+       else if h * nth (i - 1) x 0 =? 0 then rb_pass b t x h s (i - 1) else Some (i - 1)%nat.
+Proof. reflexivity. Qed.
+
+Lemma rb_pass_decides : forall (b : Z) (k t : nat), 0 <= b -> (1 <= t)%nat ->
+  (2 ^ Z.of_nat (t - 1) | b + 1) ->
+  forall i x h, bits x -> length x = k -> (i <= k)%nat ->
+    from_bits (skipn i x) <= b / 2 ^ Z.of_nat i ->
+    h = (if from_bits (skipn i x) =? b / 2 ^ Z.of_nat i then 1 else 0) ->
+    match rb_pass b t x h (S i) i with
+    | None => from_bits x <= b
+    | Some j => b < from_bits x /\ (j < i)%nat
+    end.
+Proof.
+  intros b k t Hb Ht Hdiv. induction i as [|i' IH]; intros x h Hx Lx Lik Hhi Hh.
+  - cbn [rb_pass]. assert (E : (0 <? t)%nat = true) by (apply Nat.ltb_lt; lia). rewrite E.
+    cbn in Hhi. rewrite Z.div_1_r in Hhi. exact Hhi.
+  - rewrite rb_pass_S. destruct (S i' <? t)%nat eqn:Eit.
+    + apply Nat.ltb_lt in Eit.
+      apply (accept_le b (S i') x Hb Hx ltac:(lia)); [|exact Hhi].
+      apply Z.divide_trans with (2 ^ Z.of_nat (t - 1)); [|exact Hdiv].
+      exists (2 ^ (Z.of_nat (t - 1) - Z.of_nat (S i'))). rewrite <- Z.pow_add_r by lia. f_equal. lia.
+    + apply Nat.ltb_ge in Eit. replace (S i' - 1)%nat with i' by lia.
+      pose proof (bits_nth x i' Hx) as Hc. pose proof (shift_bit b i' Hb) as Hs.
+      assert (Esk : skipn i' x = nth i' x 0 :: skipn (S i') x) by (apply skipn_cons_nth; lia).
+      assert (Efb : from_bits (skipn i' x) = nth i' x 0 + 2 * from_bits (skipn (S i') x)) by (rewrite Esk; reflexivity).
+      set (xi := nth i' x 0) in *. set (hi := from_bits (skipn (S i') x)) in *.
+      set (B := b / 2 ^ Z.of_nat (S i')) in *. set (B' := b / 2 ^ Z.of_nat i') in *.
+      assert (Li' : (i' <= k)%nat) by lia.
+      destruct (Z.testbit b (Z.of_nat i')) eqn:Eb.
+      * assert (P1 : from_bits (skipn i' x) <= B') by (rewrite Efb; destruct Hc as [E | E]; rewrite E; lia).
+        assert (P2 : h * xi = (if from_bits (skipn i' x) =? B' then 1 else 0))
+          by (rewrite Efb, Hh; destruct Hc as [E | E]; rewrite E; eqb_cases; lia).
+        specialize (IH x (h * xi) Hx Lx Li' P1 P2).
+        revert IH. destruct (rb_pass b t x (h * xi) (S i') i') as [j|]; intros IH; cbv beta iota in IH |- *; [destruct IH as [I1 I2]; split; [exact I1 | lia] | exact IH].
+      * destruct (h * xi =? 0) eqn:Ez.
+        -- apply Z.eqb_eq in Ez.
+           assert (P1 : from_bits (skipn i' x) <= B')
+             by (rewrite Efb; rewrite Hh in Ez; destruct Hc as [E | E]; rewrite E in *; eqb_cases; lia).
+           assert (P2 : h = (if from_bits (skipn i' x) =? B' then 1 else 0))
+             by (rewrite Efb; rewrite Hh in Ez |- *; destruct Hc as [E | E]; rewrite E in *; eqb_cases; lia).
+           specialize (IH x h Hx Lx Li' P1 P2).
+           revert IH. destruct (rb_pass b t x h (S i') i') as [j|]; intros IH; cbv beta iota in IH |- *; [destruct IH as [I1 I2]; split; [exact I1 | lia] | exact IH].
+        -- apply Z.eqb_neq in Ez. split; [|lia].
+           apply (reject_gt b i' x Hb Hx ltac:(lia)). fold B'. rewrite Efb.
+           rewrite Hh in Ez. destruct Hc as [E | E]; rewrite E in *; eqb_cases; lia.
+Qed.
+
+Lemma firstn_app_exact : forall (x r : list Z), firstn (length x) (x ++ r) = x.
+Proof. induction x as [|a x IH]; intros r; cbn [length app firstn]; [reflexivity | rewrite IH; reflexivity]. Qed.
+
+Lemma skipn_app_exact : forall (x r : list Z), skipn (length x) (x ++ r) = r.
+Proof. induction x as [|a x IH]; intros r; cbn [length app skipn]; [reflexivity | apply IH]. Qed.
+
+Lemma draw_exact : forall x rest, draw (length x) (x ++ rest) = Some (x, rest).
+Proof.
+  intros x rest. unfold draw.
+  assert (E : (length (x ++ rest) <? length x)%nat = false) by (apply Nat.ltb_ge; rewrite app_length; lia).
+  rewrite E, firstn_app_exact, skipn_app_exact. reflexivity.
+Qed.
+
+Lemma draw_empty : forall m, (1 <= m)%nat -> draw m [] = None.
+Proof. intros m H. unfold draw. assert (E : (length (@nil Z) <? m)%nat = true) by (apply Nat.ltb_lt; simpl; lia). rewrite E. reflexivity. Qed.
+
+(** the loop parameters exactly as random.py computes them *)
+Definition rb_k (n : Z) : nat := bit_length (n - 1).
+Definition rb_t (n : Z) : nat := bit_length (Z.land n (- n)).
+
+Lemma rb_params : forall n, 2 <= n ->
+  0 <= n - 1 /\ n - 1 < 2 ^ Z.of_nat (rb_k n) /\ (1 <= rb_k n)%nat /\ (1 <= rb_t n)%nat /\
+  (2 ^ Z.of_nat (rb_t n - 1) | n - 1 + 1).
+Proof.
+  intros n Hn. destruct (bit_length_pos (n - 1) ltac:(lia)) as (K1 & _ & K3).
+  destruct (lowbit_divides n ltac:(lia)) as [Gp Gd]. unfold rb_k, rb_t.
+  set (g := Z.land n (- n)) in *. pose proof (Z.log2_nonneg g) as L0.
+  assert (Tt : Z.of_nat (bit_length g) = Z.log2 g + 1).
+  { unfold bit_length. destruct (g =? 0) eqn:E0; [lia|]. rewrite Z.abs_eq by lia. lia. }
+  repeat split; try lia; try assumption.
+  replace (n - 1 + 1) with n by lia. replace (Z.of_nat (bit_length g - 1)) with (Z.log2 g) by lia. exact Gd.
+Qed.
+
+Lemma n_le_pow_k : forall n, 1 <= n -> n <= 2 ^ Z.of_nat (rb_k n).
+Proof.
+  intros n Hn. destruct (Z.eq_dec n 1) as [-> | Ne]; [cbn; lia|].
+  destruct (rb_params n ltac:(lia)) as (_ & K & _). lia.
+Qed.
+
+(** (3) ANY pass, any remaining tape: from the state at the start of a pass (register x of k bits, h = 1, i = k)
+    the loop returns x iff value(x) < n; otherwise the pass rejects at the position j given by [rb_pass], keeps
+    x[:j], draws k-j fresh bits and is again at the start of a pass.  (The state after a restart has the same
+    form as the initial one, so this is the step of the induction over restarts.) *)
+Theorem randbelow_pass_step : forall n fuel x tp, 2 <= n -> bits x -> length x = rb_k n -> (rb_k n < fuel)%nat ->
+  rb_loop fuel (n - 1) (rb_k n) (rb_t n) x 1 (rb_k n) tp =
+  if from_bits x <? n then Some (x, tp)
+  else match rb_pass (n - 1) (rb_t n) x 1 (S (rb_k n)) (rb_k n) with
+       | Some j => match draw (rb_k n - j) tp with
+                   | None => None
+                   | Some (nb, tp') =>
+                     rb_loop (fuel - (rb_k n - j)) (n - 1) (rb_k n) (rb_t n) (firstn j x ++ nb) 1 (rb_k n) tp'
+                   end
+       | None => None
+       end.
+Proof.
+  intros n fuel x tp Hn Hx Lx Hf. destruct (rb_params n Hn) as (B0 & Bk & K1 & T1 & Dv).
+  rewrite (rb_loop_unfold (n - 1) (rb_k n) (rb_t n) T1 fuel x 1 (rb_k n) tp Hx (or_intror eq_refl) Hf).
+  assert (Esk : skipn (rb_k n) x = []) by (apply skipn_all2; lia).
+  assert (Ediv : (n - 1) / 2 ^ Z.of_nat (rb_k n) = 0) by (apply Z.div_small; lia).
+  pose proof (rb_pass_decides (n - 1) (rb_k n) (rb_t n) B0 T1 Dv (rb_k n) x 1 Hx Lx (le_n _)) as D.
+  rewrite Esk, Ediv in D. specialize (D ltac:(cbn; lia) eq_refl).
+  destruct (rb_pass (n - 1) (rb_t n) x 1 (S (rb_k n)) (rb_k n)) as [j|].
+  - destruct D as [D _]. assert (E : (from_bits x <? n) = false) by (apply Z.ltb_ge; lia). rewrite E. reflexivity.
+  - assert (E : (from_bits x <? n) = true) by (apply Z.ltb_lt; lia). rewrite E. reflexivity.
+Qed.
+
+(** a rejected register is rejected at some position j < k *)
+Lemma rejected_position : forall n x, 2 <= n -> bits x -> length x = rb_k n -> n <= from_bits x ->
+  exists j, (j < rb_k n)%nat /\ rb_pass (n - 1) (rb_t n) x 1 (S (rb_k n)) (rb_k n) = Some j.
+Proof.
+  intros n x Hn Hx Lx Hge. destruct (rb_params n Hn) as (B0 & Bk & K1 & T1 & Dv).
+  assert (Esk : skipn (rb_k n) x = []) by (apply skipn_all2; lia).
+  assert (Ediv : (n - 1) / 2 ^ Z.of_nat (rb_k n) = 0) by (apply Z.div_small; lia).
+  pose proof (rb_pass_decides (n - 1) (rb_k n) (rb_t n) B0 T1 Dv (rb_k n) x 1 Hx Lx (le_n _)) as D.
+  rewrite Esk, Ediv in D. specialize (D ltac:(cbn; lia) eq_refl).
+  destruct (rb_pass (n - 1) (rb_t n) x 1 (S (rb_k n)) (rb_k n)) as [j|]; [|lia].
+  exists j. split; [tauto | reflexivity].
+Qed.
+
+(** (1) one-pass tapes: accepted iff value < n, output = value, all k bits consumed *)
+Theorem randbelow_one_pass : forall fuel n tp, 1 <= n -> bits tp -> length tp = rb_k n -> (rb_k n < fuel)%nat ->
+  randbelow fuel n tp = if from_bits tp <? n then Some (from_bits tp, []) else None.
+Proof.
+  intros fuel n tp Hn Htp L Hf. unfold randbelow, randbelow_bits. fold (rb_k n). fold (rb_t n).
+  pose proof (draw_exact tp []) as Dr. rewrite app_nil_r, L in Dr.
+  destruct (Z.land n (n - 1) =? 0) eqn:Ep.
+  - rewrite Dr. apply Z.eqb_eq in Ep. pose proof (pow2_fast_path n Hn Ep) as P. fold (rb_k n) in P.
+    pose proof (from_bits_bound tp Htp) as B. rewrite L in B.
+    assert (E : (from_bits tp <? n) = true) by (apply Z.ltb_lt; lia). rewrite E. reflexivity.
+  - assert (Hn2 : 2 <= n).
+    { destruct (Z.eq_dec n 1) as [-> | Ne]; [cbn in Ep; discriminate | lia]. }
+    rewrite Dr, (randbelow_pass_step n fuel tp [] Hn2 Htp L Hf).
+    destruct (from_bits tp <? n) eqn:E; [reflexivity|].
+    apply Z.ltb_ge in E. destruct (rejected_position n tp Hn2 Htp L E) as (j & Lj & ->).
+    rewrite draw_empty by lia. reflexivity.
+Qed.
+
+(** (2) for every v < n EXACTLY ONE one-pass tape is accepted with output v *)
+Theorem randbelow_one_pass_unique : forall fuel n v, 1 <= n -> 0 <= v < n -> (rb_k n < fuel)%nat ->
+  exists! tp, length tp = rb_k n /\ bits tp /\ randbelow fuel n tp = Some (v, []).
+Proof.
+  intros fuel n v Hn Hv Hf. pose proof (n_le_pow_k n Hn) as Hp.
+  exists (tape_of (rb_k n) v). split.
+  - split; [apply tape_of_length|]. split; [apply tape_of_bits|].
+    rewrite (randbelow_one_pass fuel n _ Hn (tape_of_bits _ _) (tape_of_length _ _) Hf).
+    rewrite from_tape_of by lia. assert (E : (v <? n) = true) by (apply Z.ltb_lt; lia). rewrite E. reflexivity.
+  - intros tp (L & Hb & R). rewrite (randbelow_one_pass fuel n tp Hn Hb L Hf) in R.
+    destruct (from_bits tp <? n); [|discriminate]. injection R as <-.
+    rewrite <- L. apply tape_of_from. exact Hb.
+Qed.
+
+(** the accepted one-pass tapes are exactly the encodings of 0..n-1: n of the 2^k tapes *)
+Corollary randbelow_one_pass_accepts : forall fuel n tp, 1 <= n -> bits tp -> length tp = rb_k n -> (rb_k n < fuel)%nat ->
+  (exists r, randbelow fuel n tp = Some r) <-> (exists v, 0 <= v < n /\ tp = tape_of (rb_k n) v).
+Proof.
+  intros fuel n tp Hn Hb L Hf. rewrite (randbelow_one_pass fuel n tp Hn Hb L Hf). split.
+  - intros [r H]. destruct (from_bits tp <? n) eqn:E; [|discriminate]. apply Z.ltb_lt in E.
+    exists (from_bits tp). split; [pose proof (from_bits_bound tp Hb); lia|].
+    rewrite <- L. symmetry. apply tape_of_from. exact Hb.
+  - intros (v & Hv & ->). pose proof (n_le_pow_k n Hn). rewrite from_tape_of by lia.
+    assert (E : (v <? n) = true) by (apply Z.ltb_lt; lia). rewrite E. eexists. reflexivity.
+Qed.
+
+(** ** (3) passes after a restart *)
+Lemma nth_skipn' : forall j (x : list Z) m, nth m (skipn j x) 0 = nth (j + m) x 0.
+Proof.
+  induction j as [|j IH]; intros [|a x] m; cbn [skipn]; try reflexivity.
+  - destruct m; reflexivity.
+  - cbn [plus nth]. apply IH.
+Qed.
+
+Lemma nth_app_skipn : forall j (lo x : list Z) m, length lo = j -> (j <= m)%nat ->
+  nth m (lo ++ skipn j x) 0 = nth m x 0.
+Proof.
+  intros j lo x m L Hm. rewrite app_nth2 by lia. rewrite nth_skipn'. f_equal. lia.
+Qed.
+
+(** Let the register x be rejected at position j (whatever happened before).  The bits of x below j are retained
+    and k-j fresh bits are drawn.  For EVERY choice w of (retained low bits ++ fresh bits) — a k-bit string — the
+    high part of x still causes the rejection at j, and the next pass, run on exactly those fresh bits, accepts
+    iff value(w) < n and returns w: the register of the next pass IS w. *)
+Theorem randbelow_next_pass : forall n fuel x j w, 2 <= n ->
+  bits x -> length x = rb_k n -> rb_pass (n - 1) (rb_t n) x 1 (S (rb_k n)) (rb_k n) = Some j ->
+  bits w -> length w = rb_k n -> (2 * rb_k n < fuel)%nat ->
+  rb_loop fuel (n - 1) (rb_k n) (rb_t n) (firstn j w ++ skipn j x) 1 (rb_k n) (skipn j w) =
+  if from_bits w <? n then Some (w, []) else None.
+Proof.
+  intros n fuel x j w Hn Hx Lx Hp Hw Lw Hf. destruct (rb_params n Hn) as (B0 & Bk & K1 & T1 & Dv).
+  pose proof (rb_pass_pos _ _ T1 _ _ _ _ _ Hp) as Lj.
+  set (x1 := firstn j w ++ skipn j x).
+  assert (Lfw : length (firstn j w) = j) by (apply firstn_length_le; lia).
+  assert (Hx1 : bits x1) by (apply bits_app; split; [apply bits_firstn | apply bits_skipn]; assumption).
+  assert (Lx1 : length x1 = rb_k n) by (unfold x1; rewrite app_length, skipn_length, Lfw; lia).
+  assert (Hp1 : rb_pass (n - 1) (rb_t n) x1 1 (S (rb_k n)) (rb_k n) = Some j).
+  { apply (rb_pass_ignores_low_bits _ _ T1 _ x); [exact Hp|]. intros m Hm. apply nth_app_skipn; assumption. }
+  assert (Esk : skipn (rb_k n) x1 = []) by (apply skipn_all2; lia).
+  assert (Ediv : (n - 1) / 2 ^ Z.of_nat (rb_k n) = 0) by (apply Z.div_small; lia).
+  pose proof (rb_pass_decides (n - 1) (rb_k n) (rb_t n) B0 T1 Dv (rb_k n) x1 1 Hx1 Lx1 (le_n _)) as D.
+  rewrite Esk, Ediv, Hp1 in D. specialize (D ltac:(cbn; lia) eq_refl). destruct D as [D _].
+  assert (Hf1 : (rb_k n < fuel)%nat) by lia.
+  rewrite (randbelow_pass_step n fuel x1 (skipn j w) Hn Hx1 Lx1 Hf1), Hp1.
+  assert (E1 : (from_bits x1 <? n) = false) by (apply Z.ltb_ge; lia). rewrite E1.
+  pose proof (draw_exact (skipn j w) []) as Dr. rewrite app_nil_r, skipn_length, Lw in Dr. rewrite Dr.
+  assert (Ereg : firstn j x1 ++ skipn j w = w).
+  { unfold x1. rewrite <- Lfw at 1. rewrite firstn_app_exact. apply firstn_skipn. }
+  assert (Hf2 : (rb_k n < fuel - (rb_k n - j))%nat) by lia.
+  rewrite Ereg, (randbelow_pass_step n _ w [] Hn Hw Lw Hf2).
+  destruct (from_bits w <? n) eqn:E; [reflexivity|].
+  apply Z.ltb_ge in E. destruct (rejected_position n w Hn Hw Lw E) as (j2 & Lj2 & ->).
+  rewrite draw_empty by lia. reflexivity.
+Qed.
+
+(** hence, conditional on a rejection at j (by the same high part of the register), for every v < n there is
+    EXACTLY ONE choice of (retained low bits ++ fresh bits) for which the next pass accepts with output v,
+    namely the encoding of v: the accepted output of every pass is uniform on range(n). *)
+Theorem randbelow_next_pass_unique : forall n fuel x j v, 2 <= n ->
+  bits x -> length x = rb_k n -> rb_pass (n - 1) (rb_t n) x 1 (S (rb_k n)) (rb_k n) = Some j ->
+  0 <= v < n -> (2 * rb_k n < fuel)%nat ->
+  exists! w, length w = rb_k n /\ bits w /\
+    exists r, rb_loop fuel (n - 1) (rb_k n) (rb_t n) (firstn j w ++ skipn j x) 1 (rb_k n) (skipn j w) = Some (r, [])
+              /\ from_bits r = v.
+Proof.
+  intros n fuel x j v Hn Hx Lx Hp Hv Hf. pose proof (n_le_pow_k n ltac:(lia)) as Pk.
+  exists (tape_of (rb_k n) v). split.
+  - split; [apply tape_of_length|]. split; [apply tape_of_bits|]. exists (tape_of (rb_k n) v).
+    rewrite (randbelow_next_pass n fuel x j _ Hn Hx Lx Hp (tape_of_bits _ _) (tape_of_length _ _) Hf).
+    rewrite from_tape_of by lia. assert (E : (v <? n) = true) by (apply Z.ltb_lt; lia). rewrite E. split; reflexivity.
+  - intros w (Lw & Hw & r & R & Er). rewrite (randbelow_next_pass n fuel x j w Hn Hx Lx Hp Hw Lw Hf) in R.
+    destruct (from_bits w <? n); [|discriminate]. injection R as <-. rewrite <- Er, <- Lw. apply tape_of_from. exact Hw.
+Qed.
+
+(** the same from the initial tape: first pass register x1 rejected at j, second pass accepts *)
+Theorem randbelow_two_pass : forall n fuel x j w, 2 <= n ->
+  bits x -> length x = rb_k n -> rb_pass (n - 1) (rb_t n) x 1 (S (rb_k n)) (rb_k n) = Some j ->
+  bits w -> length w = rb_k n -> (2 * rb_k n < fuel)%nat ->
+  randbelow fuel n ((firstn j w ++ skipn j x) ++ skipn j w) =
+  if from_bits w <? n then Some (from_bits w, []) else None.
+Proof.
+  intros n fuel x j w Hn Hx Lx Hp Hw Lw Hf. destruct (rb_params n Hn) as (B0 & Bk & K1 & T1 & Dv).
+  pose proof (rb_pass_pos _ _ T1 _ _ _ _ _ Hp) as Lj.
+  assert (Lfw : length (firstn j w) = j) by (apply firstn_length_le; lia).
+  assert (Lx1 : length (firstn j w ++ skipn j x) = rb_k n) by (rewrite app_length, skipn_length, Lfw; lia).
+  unfold randbelow, randbelow_bits. fold (rb_k n). fold (rb_t n).
+  destruct (Z.land n (n - 1) =? 0) eqn:Ep.
+  - exfalso. apply Z.eqb_eq in Ep. pose proof (pow2_fast_path n ltac:(lia) Ep) as P. fold (rb_k n) in P.
+    assert (Esk : skipn (rb_k n) x = []) by (apply skipn_all2; lia).
+    assert (Ediv : (n - 1) / 2 ^ Z.of_nat (rb_k n) = 0) by (apply Z.div_small; lia).
+    pose proof (rb_pass_decides (n - 1) (rb_k n) (rb_t n) B0 T1 Dv (rb_k n) x 1 Hx Lx (le_n _)) as D.
+    rewrite Esk, Ediv, Hp in D. specialize (D ltac:(cbn; lia) eq_refl).
+    pose proof (from_bits_bound x Hx) as Bx. rewrite Lx in Bx. lia.
+  - pose proof (draw_exact (firstn j w ++ skipn j x) (skipn j w)) as Dr. rewrite Lx1 in Dr. rewrite Dr.
+    rewrite (randbelow_next_pass n fuel x j w Hn Hx Lx Hp Hw Lw Hf).
+    destruct (from_bits w <? n); reflexivity.
+Qed.
+
+(** ** the same counting for getrandbits and randrange *)
+Theorem getrandbits_unique : forall k v, 0 <= v < 2 ^ Z.of_nat k ->
+  exists! tp, length tp = k /\ bits tp /\ getrandbits k tp = Some (v, []).
+Proof.
+  intros k v Hv. exists (tape_of k v). split.
+  - split; [apply tape_of_length|]. split; [apply tape_of_bits|]. unfold getrandbits.
+    pose proof (draw_exact (tape_of k v) []) as Dr. rewrite app_nil_r, tape_of_length in Dr. rewrite Dr.
+    rewrite from_tape_of by exact Hv. reflexivity.
+  - intros tp (L & Hb & R). unfold getrandbits in R.
+    pose proof (draw_exact tp []) as Dr. rewrite app_nil_r, L in Dr. rewrite Dr in R. injection R as <-.
+    rewrite <- L. apply tape_of_from. exact Hb.
+Qed.
+
+(** randrange: every lattice point start + r*step (0 <= r < len, step <> 0) has exactly one accepting one-pass tape *)
+Theorem randrange_one_pass_unique : forall fuel start stop step r,
+  step <> 0 -> 0 <= r < range_len start stop step -> (rb_k (range_len start stop step) < fuel)%nat ->
+  exists! tp, length tp = rb_k (range_len start stop step) /\ bits tp /\
+              randrange fuel start stop step tp = Some (start + r * step, []).
+Proof.
+  intros fuel start stop step r Hs Hr Hf. set (n := range_len start stop step) in *.
+  assert (Hn : 1 <= n) by lia.
+  destruct (randbelow_one_pass_unique fuel n r Hn Hr Hf) as (tp & (L & Hb & R) & U).
+  assert (E0 : (n =? 0) = false) by (apply Z.eqb_neq; lia).
+  exists tp. split.
+  - split; [exact L|]. split; [exact Hb|]. unfold randrange. fold n. rewrite E0, R. reflexivity.
+  - intros tp' (L' & Hb' & R'). apply U. split; [exact L'|]. split; [exact Hb'|].
+    unfold randrange in R'. fold n in R'. rewrite E0 in R'.
+    destruct (randbelow fuel n tp') as [[r' t']|]; [|discriminate]. injection R' as E1 E2. subst t'.
+    assert (r' = r) by nia. subst r'. reflexivity.
 Qed.
